@@ -520,6 +520,12 @@ func (o *Oracles) onDurableChange(w *World, e *Event) {
 			for i := 0; i <= idx; i++ {
 				if !o.isHandled(w, sc.ID, i) {
 					w.violate("C02", "durable-past-unhandled", fmt.Sprintf("store committed position index %d for source %s but record %d is not confirmed by all destinations, dead-lettered or filtered", idx, sc.ID, i))
+					// the position of a record becomes durable only because the engine acknowledged the
+					// record internally: for a record no destination chain has confirmed (and that was not
+					// dead-lettered or filtered) that acknowledgment came too early - C01's subject,
+					// seen here before the plugin is told
+					w.violate("C03", "durable-position-past-unhandled", fmt.Sprintf("the store holds position index %d for source %s although record %d was never confirmed by all destinations, dead-lettered or filtered: a crash at this instant reopens the source past it (the record is skipped)", idx, sc.ID, i))
+					w.violate("C01", "position-committed-before-confirmation", fmt.Sprintf("the engine acknowledged record %d of source %s (its position, index %d, reached the store) although the record is not confirmed by all destinations, dead-lettered or filtered", i, sc.ID, idx))
 					if o.ctl.forceStopIssued {
 						w.violate("C12", "force-stop-committed-unhandled", fmt.Sprintf("after a force stop the store committed position index %d for source %s but record %d was never handled: the next start skips it", idx, sc.ID, i))
 					}
@@ -697,6 +703,9 @@ func (o *Oracles) finalChecks(w *World) {
 				continue // waiting for a pipeline that is (reported) alive is what wait does
 			}
 			w.violate("C11", "call-never-returns", fmt.Sprintf("control call %q (event #%d) has not returned after %d ms of simulated idleness; every plugin and store call has been served (stored status: %s)", strings.TrimSpace(note), seq, idleMs, statusName(st)))
+			if o.ctl.forceStopIssued && o.ctl.forceStopped && (strings.HasPrefix(note, "wait") || strings.HasPrefix(note, "forcestop")) {
+				w.violate("C12", "force-stop-did-not-terminate", fmt.Sprintf("after a force stop that returned success, %q (event #%d) has not returned after %d ms of simulated idleness: the run does not terminate", strings.TrimSpace(note), seq, idleMs))
+			}
 			if strings.HasPrefix(note, "reconfigure") {
 				w.violate("C13", "reconfigure-never-answered", fmt.Sprintf("live reconfigure request %q (event #%d) was neither applied nor refused: it has not returned after %d ms of simulated idleness", strings.TrimSpace(note), seq, idleMs))
 			}
@@ -710,6 +719,9 @@ func (o *Oracles) finalChecks(w *World) {
 			w.violate("C11", "plugin-session-left-open", fmt.Sprintf("the pipeline is %s and nothing is in flight, yet plugin sessions %v opened by it were never torn down (idle for %d ms); the connectors are not released, the pipeline cannot be started again", statusName(st), open, idleMs))
 		case ok && st == 1 && len(open) > 0 && !o.statusWriteFailedEver && w.worldParked() == 0:
 			w.violate("C11", "run-never-ends", fmt.Sprintf("pipeline is still running with open plugin sessions %v after %d ms of simulated idleness; every plugin and store call has been served and no node is waiting for the outside world", open, idleMs))
+			if o.ctl.forceStopIssued && o.ctl.forceStopped {
+				w.violate("C12", "force-stop-did-not-terminate", fmt.Sprintf("a force stop returned success but the run never ended: plugin sessions %v are still open after %d ms of simulated idleness", open, idleMs))
+			}
 		case ok && st == 1 && len(open) > 0 && !o.statusWriteFailedEver && owed != "":
 			w.violate("C10", "silent-stall", fmt.Sprintf("pipeline has been idle for %d ms while still reported running: %s; every plugin and store call has been served, the sources have nothing more to give and the destinations owe no acknowledgment", idleMs, owed))
 		case ok && st == 5 && !o.statusWriteFailedEver:
